@@ -342,8 +342,7 @@ func runHierarchy(tag string, ents []entity, profiles []*Profile) int {
 			for _, p := range profiles {
 				v, err := config.ParseConfig(strings.NewReader(yamlOf(p.tree())))
 				if err != nil {
-					status = "update: profile does not parse: " + err.Error()
-					return
+					continue // as with files: a profile that does not parse is skipped; whoever references it fails later
 				}
 				var pp config.CertificateProfile
 				switch t := v.(type) {
